@@ -207,9 +207,14 @@ claim('C13',
       'dynamic devices with optional fields) goes through both formats. The same networks are written as MATPOWER text and '
       'as PSS/E RAW v33 text by independent generators (ZIP load parts, offline loads, end shunts GI/BI/GJ/BJ, CW in {1,2}, '
       'CZ in {1,2}, winding-2 tap, ratio-0 phase shifter) and the parsed element data are compared with the generator data by '
-      'the textbook conversion; system2mpc -> mpc2system must give an equivalent system with the same power flow.',
-      'The RAW / MATPOWER generators in the check are the independent reading; three-winding transformers and dyr files only '
-      'through stock cases; numeric-looking string indices excluded from the xlsx leg.',
+      'the textbook conversion (case base 100 and 50 MVA); system2mpc -> mpc2system must give an equivalent system with the '
+      'same power flow. A three-winding transformer record (7 variants: ratios, angles, SBASE, CZ=2 with three winding-pair '
+      'bases, magnetising admittance) must give the power-flow voltages of its star equivalent solved by the independent '
+      'network model. Generated dyr text (13 record types x 3 placement plans on three generators, two of them on one bus x 3 '
+      'record orders x 2 layouts): every field against the PSS/E documentation order, attachment by (IBUS, ID), M = 2H, '
+      'Sn = MBASE.',
+      'The RAW / MATPOWER / dyr generators and the PSS/E field tables in the check are the independent reading; dyr models '
+      'outside the 13 tabulated ones only through stock cases; numeric-looking string indices excluded from the xlsx leg.',
       'exhaustive enumeration of stock files and of a generated case family x formats against independent writers/readers',
       'DESIGN.md#c13')
 
